@@ -69,6 +69,25 @@ pub fn gen_values(ctx: &mut Ctx, e: &TypeEntry, rng: &mut Rng, n: usize, version
     out
 }
 
+/// Interpreted / heavily instrumented runs (Miri, valgrind) are 100-10000x slower: they keep every
+/// subject that has a bulk-copy path and a sample of the others, with fewer values each.
+pub fn slow_build() -> bool {
+    cfg!(miri) || std::env::var("VH_SLOW").is_ok()
+}
+pub fn slow_keep(s: &Subject) -> bool {
+    if !slow_build() {
+        return true;
+    }
+    (0..=s.e.version).any(|v| s.e.ops.packed(v)) || s.index % 7 == 0
+}
+pub fn nvals(ctx: &Ctx, quick: usize, thorough: usize) -> usize {
+    if slow_build() {
+        2
+    } else {
+        ctx.t(quick, thorough)
+    }
+}
+
 pub fn outcome_brief<T>(o: &Outcome<T>) -> String {
     o.brief()
 }
